@@ -779,14 +779,28 @@ func (c *LinkLayerDiscovery) SerializeTo(b gopacket.SerializeBuffer, opts gopack
 	binary.BigEndian.PutUint16(vb[chassIDLen+portIDLen:], ttlIDLen)
 	binary.BigEndian.PutUint16(vb[chassIDLen+portIDLen+2:], c.TTL)
 
-	for _, v := range c.Values {
+	for i := range c.Values {
+		v := &c.Values[i]
+		if opts.FixLengths {
+			if len(v.Value) > 511 {
+				return fmt.Errorf("LLDP value %d (%v) has %d bytes, at most 511 fit the 9 bit length", i, v.Type, len(v.Value))
+			}
+			v.Length = uint16(len(v.Value))
+		} else if v.Length > 511 {
+			return fmt.Errorf("LLDP value %d (%v) has length %d, which does not fit 9 bits", i, v.Type, v.Length)
+		} else if len(v.Value) > int(v.Length) {
+			return fmt.Errorf("LLDP value %d (%v) has length %d but %d bytes of data", i, v.Type, v.Length, len(v.Value))
+		}
 		vb, err := b.AppendBytes(int(v.Length) + 2) // +2 for TLV type and length; 1 byte for subtype is included in v.Value
 		if err != nil {
 			return err
 		}
 		idLen := ((uint16(v.Type) << 9) | v.Length)
 		binary.BigEndian.PutUint16(vb[0:2], idLen)
-		copy(vb[2:], v.Value)
+		// the appended bytes are not zeroed: clear what Value does not cover
+		for k := 2 + copy(vb[2:], v.Value); k < len(vb); k++ {
+			vb[k] = 0
+		}
 	}
 
 	vb, err = b.AppendBytes(2) // End Tlv, 2 bytes
